@@ -509,8 +509,7 @@ def thread_guards(rep, repo, mod):
                         if got != exp and bad is None:
                             bad = (x, y, {k: v for k, v in params.items() if k in ('c_locs', 'op_start', 'op_stop', 'sim_stop')}, got, exp)
         except ModelError as e:
-            rep.note(f'C06.guards: head of {name} outside the evaluator subset ({e})')
-            continue
+            raise ModelError(f'C06.guards: head of {name} is outside the evaluator subset ({e}): no verdict on its thread guards')      # undecided, never a silent pass
         ok = bad is None
         rep.ob('C06.guards', f'{name}: {n} threads evaluated', ok, evals=n)
         if not ok:
